@@ -282,3 +282,17 @@ Section Memo.
   | mr_init : mreach keys (minit keys)
   | mr_step s s' : mreach keys s -> mstep s s' -> mreach keys s'.
 End Memo.
+
+(* ---- recycled objects (sync.Pool): values, not only footprints ---- *)
+
+(* sync.Pool hands an object to one goroutine at a time, so between Get and Put a request
+   owns it exclusively; what it finds in it is whatever EARLIER owners left (any content).
+   A request (re)writes the fields [ws] with its own values and its response shows the
+   fields [rs]. *)
+Section Pool.
+  Variable V : Type.
+  Definition pobj := nat -> V.
+  Definition pfill (o : pobj) (ws : list nat) (own : nat -> V) : pobj :=
+    fun f => if memb f ws then own f else o f.
+  Definition pobserve (o : pobj) (rs : list nat) : list V := map o rs.
+End Pool.
